@@ -8,6 +8,7 @@ contract the Coq theorems assume about the binary."""
 import os
 import shutil
 import stat
+import string
 import subprocess
 import sys
 import tempfile
@@ -27,7 +28,11 @@ def make_bindir(real_bin, capture):
     script = os.path.join(d, 'ag')
     open(script, 'w').write('''#!/bin/bash
 # forwards to the freshly built ag and keeps a copy of its standard output, keyed by the -r seed
-seed=$(echo "$@" | sed -n 's/.*-r *\\([0-9][0-9]*\\).*/\\1/p')
+# (taken from the argument that follows -r, not searched in the whole command line: a temporary path may contain "-r<digit>")
+seed=
+for ((i = 1; i < $#; i++)); do
+  if [ "${!i}" = "-r" ]; then j=$((i + 1)); seed="${!j}"; fi
+done
 "%s" "$@" | tee "%s/out.$seed.$$"
 exit ${PIPESTATUS[0]}
 ''' % (real_bin, capture))
@@ -69,8 +74,9 @@ def run_case(ck, bindir_real, text_units, train_units, n, x, seed, nruns, njobs,
     text = gens.lines(text_units)
     train = None if train_units is None else gens.lines(train_units)
     # pre: earlier occurrences of -n / -x that the later ones override (the program and the wrapper take the last)
-    args = pre + '-n %d -x %d -r %d -d 0 -E -a 0.0001 -b 10000 -e 1 -f 1 -g 100 -h 0.01 -R -1 -P' % (n, x, seed)
-    work = tempfile.mkdtemp(prefix='c02-')
+    # n / x = None: the option is left out (the program's defaults are 2000 iterations, a parse at every iteration)
+    args = pre + ('' if n is None else '-n %d ' % n) + ('' if x is None else '-x %d ' % x) + '-r %d -d 0 -E -a 0.0001 -b 10000 -e 1 -f 1 -g 100 -h 0.01 -R -1 -P' % seed
+    work = tempfile.mkdtemp(prefix='c02_')
     capture = os.path.join(work, 'cap')
     os.mkdir(capture)
     tmp = os.path.join(work, 'tmp')
@@ -87,6 +93,47 @@ def run_case(ck, bindir_real, text_units, train_units, n, x, seed, nruns, njobs,
         shutil.rmtree(work, ignore_errors=True)
         shutil.rmtree(bindir, ignore_errors=True)
     return res, runs, left, args
+
+
+def read_grammar(path):
+    """(terminals by pre-terminal, categories the wrapper accepts) of a grammar file"""
+    rules = []
+    for l in open(path, encoding='utf8'):
+        if '-->' in l:
+            lhs, rhs = l.split('-->', 1)
+            if lhs.split() and rhs.split():
+                rules.append((lhs.split()[-1], rhs.split(), l.split(' ')[0]))
+    parents = {r[0] for r in rules}
+    terms = {}
+    for par, rhs, _ in rules:
+        for t in rhs:
+            # the quantifier excludes ASCII punctuation (wordseg-prep removes it)
+            if t not in parents and not any(c in string.punctuation or c.isspace() for c in t):
+                terms.setdefault(par, [])
+                if t not in terms[par]:
+                    terms[par].append(t)
+    cats = sorted({first for par, _, first in rules if first == par})
+    return terms, cats
+
+
+def covered_text(rng, terms, nutts, max_words=3):
+    """a text the grammar derives: any unit sequence for the flat Colloc0 grammars (one pre-terminal); for the
+    syllable-structure grammars (Consonant / Vowel) words made of syllables C{0,2} V{1,2} C{0,1}, so that every
+    utterance has a nucleus"""
+    if set(terms) == {'Consonant', 'Vowel'}:
+        cons = rng.sample(terms['Consonant'], min(5, len(terms['Consonant'])))
+        vow = rng.sample(terms['Vowel'], min(3, len(terms['Vowel'])))
+        lex = []
+        for _ in range(rng.randint(3, 6)):
+            w = []
+            for _ in range(rng.randint(1, 3)):
+                w += [rng.choice(cons) for _ in range(rng.randint(0, 2))] + [rng.choice(vow) for _ in range(rng.randint(1, 2))] + [rng.choice(cons) for _ in range(rng.randint(0, 1))]
+            lex.append(w)
+        return gens.random_text(rng, cons + vow, nutts=nutts, lex=lex, max_words=max_words)[0]
+    (pre, ts), = terms.items()
+    multi = [t for t in ts if len(t) > 1]
+    alpha = rng.sample(ts, min(len(ts), rng.randint(3, 7))) + rng.sample(multi, min(len(multi), 2))
+    return gens.random_text(rng, sorted(set(alpha)), nutts=nutts, max_words=max_words)[0]
 
 
 def main():
@@ -108,12 +155,26 @@ def main():
         mode = k % 3
         train_units = None if mode == 0 else (text_units if mode == 1 else gens.random_text(rng, alpha, nutts=rng.randint(2, 6))[0])
         n, x = rng.randint(2, 8), rng.randint(1, 4)
-        emitted = len(range(0, n, x)) + 1
-        nruns, njobs = rng.randint(1, 3), rng.randint(1, 3)
+        if k % 7 == 4:
+            x = None          # no -x: a parse at every iteration
+        if k % 14 in (2, 9):
+            # no -n: the default 2000 iterations, on a tiny text; every 2nd such call also without -x (2001 parses)
+            n = None
+            x = None if k % 14 == 2 else rng.choice([400, 999, 2000, 3000])
+            text_units = [us[:4] for us in text_units[:3]]
+            if train_units is not None:
+                train_units = [us[:4] for us in (text_units if mode == 1 else train_units[:3])]
+        emitted = len(range(0, 2000 if n is None else n, 1 if x is None else x)) + 1
+        nruns, njobs = rng.randint(1, 4), rng.randint(1, 4)
         ignore = rng.choice([0, 0, 1, -1, -2, emitted - 1])
-        seed = rng.randint(1, 10**5)
+        # the wrapper gives run i the seed seed + i: seed 0 included
+        seed = 0 if k % 5 == 1 else rng.randint(0, 10**5)
+        ck.count('iterations:%s%s' % ('-n ' if n is not None else '', '-x' if x is not None else ''))
+        ck.count('nruns:%d' % nruns)
+        ck.count('njobs:%d' % njobs)
+        ck.count('seed:' + ('0' if seed == 0 else 'positive'))
         pre = ''
-        if k % 3 == 2:
+        if k % 3 == 2 and n is not None and x is not None:
             # options given twice, e.g. overrides appended to a default argument string
             pre = rng.choice(['-n %d ' % rng.choice([1, 30]), '-x %d ' % rng.choice([1, 7]), '-n %d -x %d ' % (rng.choice([1, 30]), rng.choice([1, 7]))])
             ignore = rng.choice([1, -1, -2, emitted - 1, -(emitted - 1)])
@@ -134,26 +195,43 @@ def main():
                           impl=(lambda res=res: res), dec=lambda w: decode_result(w, j2text),
                           oracle=(lambda out, tu=text_units: ('segment raised ' + out[1]) if out[0] != 'ok' else gens.aligned(tu, out[1])),
                           nontrivial=lambda m: m[0] == 'raise' or any(' ' in u for u in m[1])))
-    # a bundled grammar on a text it covers
-    gfile = os.path.join(DATA_AG, 'Colloc0_enFestival.lt')
-    if os.path.exists(gfile):
-        phones = []
-        for l in open(gfile, encoding='utf8'):
-            if '-->' in l and l.split('-->')[0].split()[-1] == 'Phoneme':
-                phones.append(l.split('-->')[1].strip())
-        phones = [p for p in phones if p and ' ' not in p][:8]
-        if len(phones) >= 3:
-            for k in range(6 if ck.thorough else 2):
-                tu, _ = gens.random_text(rng, phones, nutts=rng.randint(2, 4), max_words=2)
-                res, runs, left, args = run_case(ck, bindir_real, tu, None, 4, 2, 11 + k, 1, 1, 0, gfile, 'Colloc0', 'bundled')
-                desc = {'text': gens.lines(tu), 'grammar': gfile, 'args': args, 'family': 'bundled-grammar'}
-                if runs is None:
-                    bad.append((desc, 'no captured output with the bundled grammar (result %r)' % (res,)))
-                    continue
-                cases.append(dict(op=1502, arg=[len(tu), s2j(args), 0, [text2j(r) for r in runs]], site='ag.segment', desc=desc,
-                                  impl=(lambda res=res: res), dec=lambda w: decode_result(w, j2text),
-                                  oracle=(lambda out, tu=tu: ('segment raised ' + out[1]) if out[0] != 'ok' else gens.aligned(tu, out[1])),
-                                  nontrivial=lambda m: True))
+    # the bundled grammars, each on texts it covers, with several runs / jobs and ignored parses
+    gfiles = sorted(f for f in os.listdir(DATA_AG) if f.endswith('.lt')) if os.path.isdir(DATA_AG) else []
+    for gi, gname in enumerate(gfiles):
+        gfile = os.path.join(DATA_AG, gname)
+        terms, cats = read_grammar(gfile)
+        if not cats or not terms or not (len(terms) == 1 or set(terms) == {'Consonant', 'Vowel'}):
+            ck.count('bundled_grammar_not_covered:' + gname)
+            continue
+        for k in range(4 if ck.thorough else 1 + (gi % 2)):
+            tu = covered_text(rng, terms, rng.randint(2, 4), max_words=2)
+            mode = (gi + k) % 3
+            tr = None if mode == 0 else (tu if mode == 1 else covered_text(rng, terms, rng.randint(2, 4), max_words=2))
+            category = 'Colloc0' if 'Colloc0' in cats and k == 0 else rng.choice(cats)
+            n, x = rng.randint(3, 8), rng.randint(1, 3)
+            emitted = len(range(0, n, x)) + 1
+            simple = (k == 1)     # the plain configuration kept from earlier versions of this check
+            nruns, njobs = (1, 1) if simple else (rng.randint(2, 4), rng.randint(2, 4))
+            ignore = 0 if simple else rng.choice([1, -1, -2, emitted - 1, -(emitted - 1)])
+            seed = rng.choice([0, 11 + k, rng.randint(1, 10**5)])
+            res, runs, left, args = run_case(ck, bindir_real, tu, tr, n, x, seed, nruns, njobs, ignore, gfile, category, 'bundled')
+            desc = {'text': gens.lines(tu), 'train': None if tr is None else gens.lines(tr), 'grammar': gfile, 'category': category, 'args': args,
+                    'nruns': nruns, 'njobs': njobs, 'ignore_first_parses': ignore, 'family': 'bundled-grammar'}
+            ck.count('bundled:' + gname)
+            ck.count('bundled_category:' + category)
+            if runs is None:
+                bad.append((desc, 'no captured output with the bundled grammar (result %r)' % (res,)))
+                continue
+            for r in runs:
+                cv = contract_violation(tu, r)
+                if cv:
+                    bad.append((desc, 'the ag program broke its contract: ' + cv))
+            if left:
+                bad.append((desc, 'temporary entries left behind: %r' % left))
+            cases.append(dict(op=1502, arg=[len(tu), s2j(args), ignore, [text2j(r) for r in runs]], site='ag.segment', desc=desc,
+                              impl=(lambda res=res: res), dec=lambda w: decode_result(w, j2text),
+                              oracle=(lambda out, tu=tu: ('segment raised ' + out[1]) if out[0] != 'ok' else gens.aligned(tu, out[1])),
+                              nontrivial=lambda m: True))
     for c in cases:
         ck.count('family:' + c['desc']['family'])
     for d, what in bad[:3]:
@@ -207,7 +285,8 @@ def main():
     finish_proof_failures(ck, failures + problems)
     return ck.finish(
         rule='%d runs of the real ag.segment on the ag program built from /repo (random corpora over 5 alphabets incl. multi-character, non-ASCII and U/B units; '
-             'train in {None, same, disjoint}; -n 2-8, -x 1-4, nruns 1-3, njobs 1-3, positive and negative ignore_first_parses; auto-generated Colloc0 grammar and a bundled grammar); '
+             'train in {None, same, disjoint}; -n 2-8 or absent (2000 iterations on a tiny text), -x 1-4 or absent, seeds 0..1e5, nruns 1-4, njobs 1-4, positive and negative ignore_first_parses; '
+             'auto-generated Colloc0 grammar, and every grammar file of data/ag on generated texts it covers with a category the wrapper accepts, nruns/njobs 2-4 and ignored parses); '
              'each run\'s raw output is captured, fed to the wrapper model and checked parse by parse against the contract assumed of the binary. Non-trivial = a boundary placed or an error.' % ncases,
         assumptions=['the sampler (py-cky.h), symbol handling (sym.cc) and memory safety of the C++ program are an oracle with a stated contract, tested (not proved) on every emitted parse; thorough tier adds an ASan/UBSan build'])
 
